@@ -100,6 +100,16 @@ _op_st = st.one_of(st.just("f"), st.just("f"), st.just("f"), st.just("r"), st.tu
 strat_hyp_st = st.tuples(st.none() | st.integers(1, 3600) | st.sampled_from(MAX_DELAYS), st.lists(_op_st, min_size=1, max_size=200))
 
 
+def strat_streak_oracle(case) -> Info:
+    """case = (max_delay | None, streak length): a very long run of failure() calls, then reset, then a few more."""
+    md, n = case
+    peak = strategy_run(["f"] * n + ["r", "f", "f", "f"], md)
+    return Info(nontrivial=True, classes=(f"streak:{n}",), sample={"max_delay": md, "failures": n})
+
+
+STREAKS = [(None, 1100), (60, 1030), (3600, 2000), (1, 1500), (None, 5000)]
+
+
 def strat_hyp_oracle(case) -> Info:
     md, ops = case[0], [tuple(o) if isinstance(o, (list, tuple)) else o for o in case[1]]
     peak = strategy_run(ops, md)
@@ -226,7 +236,7 @@ def build() -> Check:
         level="fault_enumeration",
         rule=(
             "strategy: ALL failure()/reset() sequences of length 1..14 (32 766) x max_delay in {1,2,3,59,60,61,3600}, and Hypothesis sequences up "
-            "to length 200 with max_delay 1..3600 or the default, also changed mid-run; model: n = failures since the last reset, "
+            "to length 200 (plus streaks of 1030..5000 consecutive failures) with max_delay 1..3600 or the default, also changed mid-run; model: n = failures since the last reset, "
             "current_delay_sec == 0 if n == 0 else min(2^(n-1), max_delay), checked after every call, while a second strategy instance is "
             "exercised in between (instances must be independent). pacing: ConnectionManager on the "
             "virtual-time loop with the wall clock replaced by the virtual clock: ALL attempt-outcome/loss scripts of length <=6 (quick) / "
@@ -245,6 +255,7 @@ def build() -> Check:
         clauses=[
             EnumClause("strategy-all", size=lambda tier: per * len(MAX_DELAYS), case_at=strat_enum_case, oracle=strat_enum_oracle, batch=strat_batch, doc="every failure/reset sequence up to length 14 x 7 max_delay values"),
             HypClause("strategy-long", strat_hyp_st, strat_hyp_oracle, quick=3000, thorough=60000),
+            EnumClause("strategy-streaks", size=lambda tier: len(STREAKS), case_at=lambda i, tier: STREAKS[i], oracle=strat_streak_oracle, doc="1030..5000 consecutive failure() calls (beyond 2^1023)", exhaustive=False),
             EnumClause("pacing-all", size=pacing_enum_size, case_at=pacing_enum_case, oracle=pacing_oracle, doc="every script up to the tier's length x 4 configurations"),
             HypClause("pacing", pacing_hyp_st, pacing_oracle, quick=2500, thorough=60000),
         ],
